@@ -11,9 +11,9 @@ import gen
 import jobs as J
 import fsmodel as F
 from gen import H, O
-from vlib import run_driver_parallel, coq_eval, unhex, cb
+from vlib import run_driver_parallel, coq_eval, unhex, cb, trace_to_coq
 
-COQ_TARGETS = ("theories/FSModel.vo", "proofs/FSProofs.vo")
+COQ_TARGETS = ("theories/FSModel.vo", "proofs/FSProofs.vo", "theories/Static.vo", "proofs/StaticProofs.vo")
 
 RES_NO_MAGIC, RES_NO_SYM, RES_IN_ROOT = 2, 4, 16
 
@@ -46,7 +46,9 @@ def run(ck):
             base = jid
             case = {"tree": tree, "path": p, "nf": nf, "nosym": nosym}
             jid += 1
-            jobs.append({"id": jid, "tree": tree, "op": {"k": "resolve", "path": H(p), "nofollow": nf}, "rflags": 4 if nosym else 0, "trace": False})
+            # a third of the lookups are traced: their real system-call answers validate the static kernel model (tie T2')
+            jobs.append({"id": jid, "tree": tree, "op": {"k": "resolve", "path": H(p), "nofollow": nf}, "rflags": 4 if nosym else 0,
+                         "trace": rng.random() < 0.34})
             case["lib"] = jid
             jid += 1
             jobs.append({"id": jid, "tree": tree, "op": {"k": "raw_openat2", "path": H(p), "flags": O["PATH"] | (O["NOFOLLOW"] if nf else 0),
@@ -75,6 +77,7 @@ def run(ck):
     nontrivial = set()
     samples = []
     cases = []
+    kcases = []
     for base, case in meta.items():
         rk = res["none"]
         re_ = res["openat2"]
@@ -158,6 +161,12 @@ def run(ck):
         term = (f"let s := build {mk} in enc_wres (kwalk s {pb} {nf} {ns}) ++ enc_wres (ewalk s {pb} {nf} {ns}) "
                 f"++ [if wf_b s then 1%Z else 0%Z]")
         cases.append((len(cases), term, o_raw, o_e, idmap, desc, emu_differs, open_pending))
+        tr = libe.get("trace")
+        if tr:
+            dup = next((e for e in tr if e["c"] == "fcntl" and e.get("cmd") == 1030), None)
+            if dup is not None:
+                t2 = f"let s := build {mk} in let '(bad, n) := agree_trace s [({dup['fd']}%Z, ROOT)] {trace_to_coq(tr)} 0 0 in [Z.of_N bad; Z.of_N n]"
+                kcases.append((len(kcases), t2, desc, tr))
     if not ck.proof_broken:
         evals, cerrs = coq_eval([(c[0], c[1]) for c in cases], header="From PV Require Import FSModel FSProofs.", tag="c01")
         if cerrs:
@@ -193,6 +202,20 @@ def run(ck):
             if me_ != o_e:
                 ck.violation("T2: the emulated-walk model (ewalk) disagrees with the library's emulated backend",
                              dict(desc, model_ewalk=me_, library_emulated=o_e), False)
+        # T2': the static kernel model (theories/Static.v) against the answers the running kernel gave to the library's own calls
+        kevals, kerrs = coq_eval([(c[0], c[1]) for c in kcases], header="From PV Require Import Static.\nFrom PV Require Import FSModel.", tag="c01k")
+        if kerrs:
+            ck.violation("T2': Coq evaluation of the static-kernel cases failed", {"log": kerrs[0][-1500:]}, False)
+        for cid, term, desc, tr in kcases:
+            got = kevals.get(cid)
+            if got is None or len(got) != 2:
+                continue
+            stats["static_traces"] = stats.get("static_traces", 0) + 1
+            stats["static_calls"] = stats.get("static_calls", 0) + got[1]
+            if got[0] != 0:
+                evs = [e for e in tr if e["c"] != "fcntl" or e.get("cmd") != 1]
+                ck.violation("T2': the static kernel model disagrees with the answer the running kernel gave to a call of the emulated resolver",
+                             dict(desc, call_index=got[0] - 1, around=evs[max(0, got[0] - 3):got[0] + 1]), False)
     else:
         for cid, term, o_raw, o_e, idmap, desc, emu_differs, open_pending in cases:
             if emu_differs:
@@ -208,7 +231,8 @@ def run(ck):
         "kernel_vs_reference_model": stats["kernel_vs_model"], "library_vs_kernel": stats["lib_vs_kernel"] * 2,
         "emulated_vs_model": stats["emu_vs_model"], "open_subpath_compared": stats["open"], "readlink_compared": stats["readlink"],
         "known_link_budget_cases": stats["known_FH"], "model_trees_satisfying_wf": stats.get("wf_trees", 0), "kernel_outcome_histogram": stats["outcomes"],
-        "traces_validated_against_impl": stats["kernel_vs_model"] + stats["emu_vs_model"],
+        "static_kernel_traces_validated": stats.get("static_traces", 0), "static_kernel_calls_compared": stats.get("static_calls", 0),
+        "traces_validated_against_impl": stats["kernel_vs_model"] + stats["emu_vs_model"] + stats.get("static_traces", 0),
         "disagreements_checked": 0,
     }
     assumptions = ["the tree is static during each lookup (C02 covers attackers)", "no DAC/MAC permission checks are modelled (the harness runs as root)",
